@@ -126,7 +126,7 @@ def c07close : Drv where
       | none => (hl, "bad-op")
     | "goes" :: cltv :: outb :: pre :: start :: fuel :: _ =>
       (hl, showOptNat (ClaimTime.goesOnchainAt (nat! cltv) (outb == "1") (pre == "1") (nat! start) (nat! fuel)))
-    | _ => (hl, "bad-op")
+    | _ => (hl, (PkgOps.pkgStep ws).getD "bad-op")     -- the package-layer ops (Driver/Packages.lean, shared with C06)
 
 /-! ### c07fee: target feerates / fee-bump trajectories (Generated/Package.lean `computePackageFeerate`,
     `computePackageOutput`; Model/OnchainClaims.lean `extTargets`, `ownFeerates`) -/
